@@ -2,7 +2,9 @@ import ChythonModel.Proofs.C08Labels
 import ChythonModel.Proofs.C08Pair
 import ChythonModel.Model.SmartsFull
 import ChythonModel.Proofs.C08Match
-import ChythonModel.Props.C07
+import ChythonModel.Proofs.C08IsoExact
+import ChythonModel.Model.C08Cx
+import ChythonModel.Proofs.C15Radicals
 import Mathlib.Data.List.Perm.Basic
 import Mathlib.Tactic.SplitIfs
 /-!
@@ -843,13 +845,13 @@ theorem pattern_match_is_documented (g : QGraph) (m : Mol) (sssr : List (List Na
     ∃ comps cl r, Iso.compileQuery (qIsoGraph g) = some (comps, cl) ∧ patternMapping g m sssr tComps = some r ∧ r.Nodup ∧
       ∀ d, d ∈ r ↔ ∃ f, d = asDict (comps.flatten.map (·.front)) f ∧ DocEmbedding g m sssr f := by
   have ht : (molIsoGraph m).WF = true := molIso_wf m hm
-  have hb : ChythonModel.Props.C07.BondSymm (matchProblem g m sssr tComps).bondOk :=
+  have hb : ChythonModel.Proofs.C08.IsoExact.BondSymm (matchProblem g m sssr tComps).bondOk :=
     fun u v x y => bondOkOf_symm g m sssr hm u v x y
   have hat : (matchProblem g m sssr tComps).q.atoms ≠ [] := by
     show (g.atoms.map (·.1)) ≠ []
     intro h; exact hne (List.map_eq_nil_iff.1 h)
   obtain ⟨comps, cl, r, hc, hr, hnd, hmem⟩ :=
-    ChythonModel.Props.C07.get_mapping_exact (matchProblem g m sssr tComps) hq ht hpart hb hat rfl
+    ChythonModel.Proofs.C08.IsoExact.get_mapping_exact (matchProblem g m sssr tComps) hq ht hpart hb hat rfl
   refine ⟨comps, cl, r, hc, hr, hnd, ?_⟩
   intro d
   rw [hmem d]
@@ -927,4 +929,119 @@ theorem smartsFull_atoms_wf (text rad : List Nat) (g : QGraph) (h : smartsFull t
 
 end Pattern
 
+/-! ## 10. the whole input string: white-space split and the CX radical block -/
+
+section Cx
+open ChythonModel.Model.C15 ChythonModel.Proofs.C15
+
+/-- **smartsText_reject_kind**: whatever the input string is (any white space, any CX tail), `smarts(data)` returns a query or raises
+    `IncorrectSmarts` — nothing else -/
+theorem smartsText_reject_kind (data : List Nat) (e : PyErr) (h : smartsText data = .err e) : e = .incorrectSmarts := by
+  unfold smartsText at h
+  split at h
+  · cases h; rfl
+  · exact smartsFull_reject_kind _ _ _ h
+
+theorem pySplitAux_noSpace : ∀ (s cur : List Nat), (∀ c ∈ s, pySpace c = false) → cur.reverse ++ s ≠ [] →
+    pySplitAux s cur = [cur.reverse ++ s]
+  | [], cur, _, hne => by
+    have : cur.isEmpty = false := by
+      cases cur with
+      | nil => simp at hne
+      | cons _ _ => rfl
+    simp [pySplitAux, this]
+  | c :: cs, cur, hs, _ => by
+    have hc : pySpace c = false := hs c List.mem_cons_self
+    simp only [pySplitAux, hc, Bool.false_eq_true, if_false]
+    rw [pySplitAux_noSpace cs (c :: cur) (fun x hx => hs x (List.mem_cons_of_mem _ hx)) (by simp)]
+    simp
+
+theorem pySplitAux_upto : ∀ (s cur : List Nat) (sp : Nat) (rest : List Nat), (∀ c ∈ s, pySpace c = false) →
+    pySpace sp = true → cur.reverse ++ s ≠ [] →
+    pySplitAux (s ++ sp :: rest) cur = (cur.reverse ++ s) :: pySplitAux rest []
+  | [], cur, sp, rest, _, hsp, hne => by
+    have : cur.isEmpty = false := by
+      cases cur with
+      | nil => simp at hne
+      | cons _ _ => rfl
+    simp [pySplitAux, hsp, this]
+  | c :: cs, cur, sp, rest, hs, hsp, _ => by
+    have hc : pySpace c = false := hs c List.mem_cons_self
+    simp only [List.cons_append, pySplitAux, hc, Bool.false_eq_true, if_false]
+    rw [pySplitAux_upto cs (c :: cur) sp rest (fun x hx => hs x (List.mem_cons_of_mem _ hx)) hsp (by simp)]
+    simp
+
+/-- **smartsText_plain**: a text without white space is read by the full-syntax reader with no radical marks -/
+theorem smartsText_plain (s : List Nat) (hne : s ≠ []) (hs : ∀ c ∈ s, pySpace c = false) : smartsText s = smartsFull s [] := by
+  unfold smartsText pySplit
+  rw [pySplitAux_noSpace s [] hs (by simpa using hne)]
+  rfl
+
+/-- the documented CX radical block for the atom indices `i, is…`: `|^1:i,…|` -/
+def cxBlock (i : Nat) (is : List Nat) : List Nat :=
+  chBar :: (chCaret :: 49 :: chColon :: join chComma ((i :: is).map digits)) ++ [chBar]
+
+theorem isDigit_noSpace (c : Nat) (h : C15.isDigit c = true) : pySpace c = false := by
+  simp only [C15.isDigit, Bool.and_eq_true, decide_eq_true_eq] at h
+  simp only [pySpace, Bool.or_eq_false_iff, Bool.and_eq_false_iff, decide_eq_false_iff_not, beq_eq_false_iff_ne]
+  omega
+
+theorem commaNumStr_noSpace : ∀ (ns : List Nat), ∀ c ∈ commaNumStr ns, pySpace c = false
+  | [], c, hc => by simp [commaNumStr] at hc
+  | n :: ns, c, hc => by
+    simp only [commaNumStr, List.mem_cons, List.mem_append] at hc
+    rcases hc with (rfl | hc) | hc
+    · decide
+    · exact isDigit_noSpace c (digits_all n c hc)
+    · exact commaNumStr_noSpace ns c hc
+
+theorem cxBlock_noSpace (i : Nat) (is : List Nat) : ∀ c ∈ cxBlock i is, pySpace c = false := by
+  intro c hc
+  unfold cxBlock at hc
+  rw [join_commaNums_cons] at hc
+  simp only [List.cons_append, List.mem_cons, List.mem_append, List.append_assoc, List.not_mem_nil, or_false] at hc
+  rcases hc with rfl | rfl | rfl | rfl | hc | hc | rfl
+  · decide
+  · decide
+  · decide
+  · decide
+  · exact isDigit_noSpace c (digits_all i c hc)
+  · exact commaNumStr_noSpace is c hc
+  · decide
+
+/-- **smarts_cx_roundtrip**: for every white-space-free pattern text and every list of atom indices (any length, any size), the input
+    `pattern |^1:i,j,…|` is read as the pattern with exactly the radical indices `i, j, …` handed to the reader -/
+theorem smarts_cx_roundtrip (smr : List Nat) (hne : smr ≠ []) (hs : ∀ c ∈ smr, pySpace c = false) (i : Nat) (is : List Nat) :
+    smartsText (smr ++ 32 :: cxBlock i is) = smartsFull smr (i :: is) := by
+  unfold smartsText pySplit
+  rw [pySplitAux_upto smr [] 32 (cxBlock i is) hs (by decide) (by simpa using hne)]
+  rw [pySplitAux_noSpace (cxBlock i is) [] (cxBlock_noSpace i is) (by simp [cxBlock])]
+  simp only [List.reverse_nil, List.nil_append]
+  have hrad : cxRadicals [cxBlock i is] = i :: is := by
+    unfold cxRadicals
+    have hh : (cxBlock i is).head? = some 124 := rfl
+    have hl : (cxBlock i is).getLast? = some 124 := by
+      unfold cxBlock
+      have : ∀ (l : List Nat) (x : Nat), (l ++ [x]).getLast? = some x := by
+        intro l x; simp
+      exact this (chBar :: chCaret :: 49 :: chColon :: join chComma ((i :: is).map digits)) chBar
+    simp only [hh, hl, beq_self_eq_true, Bool.and_self, if_true]
+    have hlen : (cxBlock i is).length + 1 = ((cxBlock i is).length - 1) + 2 := by
+      have : 1 ≤ (cxBlock i is).length := by simp [cxBlock]
+      omega
+    rw [hlen]
+    unfold cxBlock
+    exact findRadicals_render i is [chBar] (by intro c hc; cases hc; decide)
+      (by intro f; cases f <;> simp [commaNums, chBar, chComma]) (by intro c hc; simp at hc; subst hc; decide) _
+  rw [hrad]
+
+/-- the hypotheses are satisfiable and the result is not trivial: `[C][O] |^1:1|` is read with the oxygen, and only it, as a radical -/
+example : [91, 67, 93, 91, 79, 93] ++ 32 :: cxBlock 1 [] = [91, 67, 93, 91, 79, 93, 32, 124, 94, 49, 58, 49, 124] ∧
+    smartsText ([91, 67, 93, 91, 79, 93] ++ 32 :: cxBlock 1 []) = smartsFull [91, 67, 93, 91, 79, 93] [1] ∧
+    ((match smartsFull [91, 67, 93, 91, 79, 93] [1] with
+      | .ok g => g.atoms.map (fun p => (p.1, p.2.radical))
+      | _ => []) = [(1, false), (2, true)]) := by
+  refine ⟨by decide +kernel, smarts_cx_roundtrip [91, 67, 93, 91, 79, 93] (by decide) (by decide) 1 [], by decide +kernel⟩
+
+end Cx
 end ChythonModel.Props.C08
